@@ -131,7 +131,7 @@ impl Prop for C02T {
         "C02"
     }
     fn budget(&self, thorough: bool) -> u64 {
-        if thorough { 10_000_000 } else { 400_000 }
+        if thorough { 10_000_000 } else { 1_000_000 }
     }
     fn generate(&self, seed: u64, _thorough: bool) -> Scenario {
         let mut rng = Rng::new(seed);
